@@ -505,3 +505,8 @@ def replay_args(v):
     if k.startswith("c10.recv.resolve_oversize."):
         return ("c10_431_respects_client_limit", [])
     return None
+
+
+# native scenarios that exercise, against the real build, the behaviours this spec decides: on a tree where the spec finds no
+# violation every one of them must NOT reproduce (a scenario that reproduces there means the spec misses something)
+SCENARIOS = [('c10_stale_limit', []), ('c10_431_respects_client_limit', [])]
